@@ -7,8 +7,7 @@ LEVEL = "exploration"
 RULE = (
     "The C05/C06 lifecycle scenario generators (two pynetdicom AEs; raw requestor vs acceptor; requestor vs raw acceptor; protocol deviations, "
     "aborts from handlers and other threads, small timeouts, fifo/random/PCT schedules with preemptions and clock nudges). Every notification "
-    "event of every association is recorded in order. Oracle per association: FSM transitions chain from Sta1; no data/PDU notification before "
-    "EVT_CONN_OPEN or after EVT_CONN_CLOSE; EVT_CONN_OPEN and EVT_CONN_CLOSE at most once each, and exactly one EVT_CONN_CLOSE once a connection was "
+    "event of every association is recorded in order. Oracle per association: FSM transitions chain from Sta1; EVT_CONN_OPEN is the first notification (a requestor's EVT_ACSE_SENT/EVT_REQUESTED excepted) and no data/PDU notification follows EVT_CONN_CLOSE; EVT_CONN_OPEN and EVT_CONN_CLOSE at most once each, and exactly one EVT_CONN_CLOSE once a connection was "
     "opened and the run is quiescent; EVT_ESTABLISHED at most once and before any EVT_RELEASED/EVT_ABORTED; the concatenated EVT_DATA_SENT and "
     "EVT_PDU_SENT payloads equal the bytes this side put on the wire; EVT_PDU_RECV/EVT_DATA_RECV payloads are, in order, PDUs framed in the bytes "
     "the peer put on the wire. Non-trivial = history with an abort or a transport loss."
@@ -16,8 +15,8 @@ RULE = (
 ASSUMPTIONS = [
     "E4 substitution table (engines/dsched.py); the wire tap of the virtual sockets is the ground truth for 'crossed the wire'",
     "runs in which a pynetdicom thread died with an exception are attributed to C05 and only counted here",
-    "'connection-open precedes everything else' is asserted for connection/data/PDU notifications; EVT_REQUESTED/EVT_ACSE_SENT of a requestor "
-    "legitimately precede the TCP connect and are not constrained",
+    "'connection-open precedes everything else': on the acceptor EVT_CONN_OPEN must be the first notification; on the requestor only "
+    "EVT_ACSE_SENT/EVT_REQUESTED (issued before the TCP connect) may precede it",
 ]
 SHARDS = {"quick": 1, "thorough": 16}
 DATAISH = ("EVT_DATA_SENT", "EVT_DATA_RECV", "EVT_PDU_SENT", "EVT_PDU_RECV")
@@ -75,61 +74,51 @@ def check_history(ctx, sc):
         n_open, n_close = names.count("EVT_CONN_OPEN"), names.count("EVT_CONN_CLOSE")
         if n_open > 1:
             ctx.fail("conn-open-count", name, f"{name}: EVT_CONN_OPEN fired {n_open} times")
-            return
         if n_close > 1:
             ctx.fail("conn-close-count", f"{name}:{n_close}", f"{name}: EVT_CONN_CLOSE fired {n_close} times; history {_hist(ev)}")
-            return
         if n_open == 1 and n_close == 0 and out["how"] == "quiescent":
             trs = [e[3][2] for e in ev if e[2] == "EVT_FSM_TRANSITION"]
             last_fsm = [e[3] for e in ev if e[2] == "EVT_FSM_TRANSITION"][-1:] or [None]
             key = f"{name}:killed-before-first-pdu" if set(trs) <= {"AE-5"} else f"{name}:last={last_fsm[0][2]}"
+            if name == "requestor" and any(e[3][0] == "Sta5" and e[3][2] == "AA-8" for e in ev if e[2] == "EVT_FSM_TRANSITION"):
+                key = "requestor:provider-abort-in-Sta5"  # one root cause: _negotiate_as_requestor stops the provider while it waits in Sta13
             ctx.fail("conn-close-missing", key, f"{name}: connection opened but EVT_CONN_CLOSE never fired; history {_hist(ev)}")
-            return
         if n_open:
             i_open = names.index("EVT_CONN_OPEN")
-            early = [n for n in names[:i_open] if n in DATAISH]
+            allowed_before = ("EVT_ACSE_SENT", "EVT_REQUESTED") if name == "requestor" else ()
+            early = [n for n in names[:i_open] if n not in allowed_before]
             if early:
                 ctx.fail("before-conn-open", f"{name}:{early[0]}", f"{name}: {early} notified before EVT_CONN_OPEN")
-                return
         elif any(n in DATAISH for n in names):
             ctx.fail("before-conn-open", f"{name}:no-open", f"{name}: data/PDU notifications without EVT_CONN_OPEN: {_hist(ev)}")
-            return
         if n_close:
             i_close = names.index("EVT_CONN_CLOSE")
             late = [n for n in names[i_close + 1 :] if n in DATAISH or n == "EVT_CONN_OPEN"]
             if late:
                 ctx.fail("after-conn-close", f"{name}:{late[0]}", f"{name}: {late} notified after EVT_CONN_CLOSE; history {_hist(ev)}")
-                return
         if names.count("EVT_ESTABLISHED") > 1:
             ctx.fail("established-count", name, f"{name}: EVT_ESTABLISHED fired {names.count('EVT_ESTABLISHED')} times")
-            return
         if "EVT_ESTABLISHED" in names:
             i_est = names.index("EVT_ESTABLISHED")
             bad = [n for n in names[:i_est] if n in ("EVT_RELEASED", "EVT_ABORTED")]
             if bad:
                 ctx.fail("terminal-before-established", f"{name}:{bad[0]}", f"{name}: {bad} before EVT_ESTABLISHED; history {_hist(ev)}")
-                return
         # notifications vs wire
         pdu_sent = b"".join(e[3] for e in ev if e[2] == "EVT_PDU_SENT" and isinstance(e[3], bytes))
         data_sent = b"".join(e[3] for e in ev if e[2] == "EVT_DATA_SENT")
         if any(e[2] == "EVT_PDU_SENT" and not isinstance(e[3], bytes) for e in ev):
             ctx.fail("pdu-sent-unencodable", name, f"{name}: a PDU reported by EVT_PDU_SENT cannot be encoded")
-            return
         if data_sent != sent[me]:
             ctx.fail("data-sent-vs-wire", name, f"{name}: EVT_DATA_SENT payloads ({len(data_sent)} bytes) != bytes written ({len(sent[me])} bytes)")
-            return
         if pdu_sent != sent[me]:
             ctx.fail("pdu-sent-vs-wire", name, f"{name}: EVT_PDU_SENT payloads ({len(pdu_sent)} bytes) != bytes written ({len(sent[me])} bytes): {_kinds(pdu_sent)} vs {_kinds(sent[me])}")
-            return
         peer_frames = _frames(sent[peer])
         got_data = [e[3] for e in ev if e[2] == "EVT_DATA_RECV"]
         got_pdu = [e[3] for e in ev if e[2] == "EVT_PDU_RECV" and isinstance(e[3], bytes)]
         if not _subsequence(got_data, peer_frames):
             ctx.fail("data-recv-vs-wire", name, f"{name}: EVT_DATA_RECV payloads are not PDUs framed in the peer's byte stream, in order")
-            return
         if not _subsequence(got_pdu, peer_frames):
             ctx.fail("pdu-recv-vs-wire", name, f"{name}: EVT_PDU_RECV PDUs do not re-encode to PDUs of the peer's byte stream, in order: {[g[:1].hex() for g in got_pdu]} vs {[f[:1].hex() for f in peer_frames]}")
-            return
 
 
 def _hist(ev):
